@@ -92,7 +92,7 @@ def run(ctx):
                         out.append(x)
             return out
         x = find('Rx', 'fire_rx', 'Expired')
-        r.check('rx-expired', len(x) == 1 and (x[0].value_str(), x[0].done) == ('errors::MissedServerHeartbeatsSnafu::fail(errors::MissedServerHeartbeatsSnafu)', 'return'), site, built=[y.row() for y in x])
+        r.check('rx-expired', len(x) == 1 and (x[0].value_str(), x[0].done) == ('Err(errors::Error::MissedServerHeartbeats)', 'return'), site, built=[y.row() for y in x])
         x = find('Rx', 'fire_rx', 'StillRunning')
         r.check('rx-still-running', len(x) == 1 and x[0].done == 'iterate' and not [e for e in x[0].effects if 'push_' in e or 'fail' in e], site, built=[y.row() for y in x])
         EMPTY = 'serialize::SealableOutputBuffer::is_empty(self.outbuf)'
